@@ -147,8 +147,12 @@ def contract_cases(tier, seed):
     for si, (methods, fallback) in enumerate(abi_sets(tier, seed)):
         src = contract_source(methods, fallback)
         lengths = sorted({len(m.name) for m in methods})
-        absent = next(l for l in range(1, 20) if l not in lengths)
-        for L in lengths + [absent]:
+        # name lengths to explore: every length occurring in the ABI, the shortest absent one, and for every
+        # method length the next longer absent length (a called name may have a method name as a strict prefix)
+        absent = {next(l for l in range(1, 20) if l not in lengths)}
+        for l in lengths:
+            absent.add(next(x for x in range(l + 1, l + 20) if x not in lengths))
+        for L in lengths + sorted(absent):
             c = Case(f'abi{si}_len{L}', src, note=f'contract with methods {[m.name for m in methods]}, fallback={fallback}; call with any {L}-byte method name and any argument bytes',
                      tags=['contract'])
             c.pkg_name = (lambda si=si: f'cabi{si}')
